@@ -16,7 +16,7 @@ from pymemcache import serde as S
 PROPERTY = "C15"
 LEVEL = "exploration"
 RULE = ("case = (serde configuration, value description). Values: a recursive Hypothesis strategy over bytes, str, "
-        "int (either sign, up to 4000 digits, digit counts straddling every threshold), bool, None, float (no NaN), bytearray, text beginning with U+FEFF / U+FFFE / NUL, "
+        "int (either sign, up to 4000 digits, digit counts straddling every threshold), bool, None, float (no NaN), bytearray, bytes that are themselves a complete zlib / bz2 / lzma / gzip stream or a pickle (data the application packed itself), text beginning with U+FEFF / U+FFFE / NUL, "
         "complex, Decimal, datetime, tuple/list/dict/set/frozenset, and module-level subclasses of int/str/bytes/"
         "list/dict with and without attributes; payload sizes straddling each threshold; incompressible bytes. "
         "Configurations: PickleSerde(p) p=0..5; CompressedSerde x min_compress_len {0,1,10,400} x codec {zlib,bz2,"
@@ -111,6 +111,15 @@ def build(d):
         return {build(k): build(v) for k, v in d[1]}
     if t == "bytearray":
         return bytearray(d[1])
+    if t == "packed":
+        # bytes that the application compressed (or pickled) itself: a complete zlib / bz2 / lzma / gzip stream or a pickle,
+        # optionally followed by more bytes - to the cache it is just bytes
+        import gzip
+        raw = build(d[2]) if isinstance(d[2], tuple) else d[2]
+        raw = raw if isinstance(raw, bytes) else repr(raw).encode()
+        packed = {"zlib": zlib.compress, "bz2": bz2.compress, "lzma": lzma.compress, "gzip": lambda b: gzip.compress(b, mtime=0),
+                  "pickle": lambda b: __import__("pickle").dumps(b, 2)}[d[1]](raw)
+        return packed + (d[3] if len(d) > 3 else b"")
     if t == "payload-of":
         # a bytes value that is byte-for-byte the serialized form of another value (same payload, different type)
         pl, _f = S.PickleSerde(d[2]).serialize("key", build(d[1]))
@@ -300,7 +309,9 @@ def value_strategy():
     sizes = st.one_of(st.sampled_from(THRESH), st.integers(0, 60))
     b = st.one_of(st.binary(max_size=40), sizes.flatmap(lambda n: st.binary(min_size=n, max_size=n)),
                   st.tuples(st.just("noise"), st.sampled_from(THRESH + [450, 5000]), st.integers(0, 5)))
-    leaf_bytes = st.one_of(b.map(lambda x: x if isinstance(x, tuple) else ("bytes", x)),
+    packed = st.tuples(st.just("packed"), st.sampled_from(["zlib", "bz2", "lzma", "gzip", "pickle"]), st.one_of(st.binary(max_size=30), st.sampled_from(THRESH).map(lambda n: b"p" * n)),
+                       st.sampled_from([b"", b"", b"trailing", b"\x00"]))
+    leaf_bytes = st.one_of(b.map(lambda x: x if isinstance(x, tuple) else ("bytes", x)), packed,
                            st.one_of(st.binary(max_size=40), sizes.flatmap(lambda n: st.binary(min_size=n, max_size=n))).map(lambda x: ("bytearray", x)))
     # (text beginning with U+FEFF, U+FFFE or other characters a codec might treat specially is text like any other)
     special = st.sampled_from(["\ufeff", "\ufffe", "\ufeff\ufeff", "\x00", "\ud7ff", "\U0010ffff", "\xef\xbb\xbf", "\u2028", "\r\n"])
@@ -367,6 +378,9 @@ def grid_cases(tier, seed):
                ("sub", "MyDict", ("dict", []), "note"), ("bigint", 4000, 1, 1), ("bigint", 4000, 9, -1),
                ("dict", [[("str", "k"), ("bytes", b"v" * 500)]]), ("decimal", "1.50"), ("datetime", [2024, 2, 29, 23, 59, 59, 999999]),
                ("complex", 1.5, -2.0), ("frozenset", [("int", 1), ("str", "a")]), ("set", []),
+               ("packed", "zlib", b"hello world"), ("packed", "zlib", b"payload", b"trailing"), ("packed", "zlib", b"z" * 2000), ("packed", "zlib", b""),
+               ("packed", "bz2", b"hello world"), ("packed", "lzma", b"hello"), ("packed", "gzip", b"hello"), ("packed", "pickle", b"inner"),
+               ("list", [("packed", "zlib", b"nested")]),
                ("bytearray", b""), ("bytearray", b"abc"), ("bytearray", b"z" * 401), ("bytearray", b"\x80\x05K\x01."), ("list", [("bytearray", b"in a list")]),
                ("str", "\ufeff"), ("str", "\ufeffhello"), ("str", "\ufeff\ufeffx"), ("str", "x\ufeff"), ("str", "\ufffe" + "y" * 450), ("str", "\ufeff" + "y" * 450),
                ("str", "\x00"), ("str", "\xef\xbb\xbfz"), ("sub", "MyStr", ("str", "\ufeffsub"), None), ("dict", [[("str", "\ufeffk"), ("str", "\ufeffv")]]),
